@@ -1,4 +1,4 @@
-import GoLevel.Proofs.ConcTr
+import GoLevel.Proofs.ConcShort
 import GoLevel.Proofs.Key
 /-!
 # Property C05 — linearizability of writes and reads on a shared DB (and C03 at this level)
@@ -309,6 +309,28 @@ example : ∀ r ∈ exState2.readers, ∀ kv ∈ r.results, ∃ s, r.seq? = some
 example : (exState2.readers.map fun r => (r.seq?, r.results.head?)) =
     [(some 2, some ([1], some [10])), (some 4, some ([1], none)), (some 2, some ([1], some [10]))] := by decide
 
+/-- **The order of consultation is immaterial.**  `DB.get` asks the write buffer, then the frozen buffer, then
+the version, and stops at the first that knows the key (`scView`); the reader steps of the model take the
+view of the union.  For every reader of the real system the two agree (the pinned buffers are an intact,
+ordered top segment of what the reader may see), hence `DB.get`'s answer is the history's too. -/
+theorem lookup_order_irrelevant {σ : State} (h : Reachable Cfg.real c σ) (i : Nat) (r : Reader)
+    (hi : σ.readers[i]? = some r) (s : Nat) (mf : Nat × Option Nat) (v : List Entry)
+    (hs : r.seq? = some s) (hm : r.mems? = some mf) (hv : r.ver? = some v) (k : Bytes) :
+    scView c [getBuf σ mf.1, optBuf σ mf.2, v] k s = view c σ.hist k s := by
+  rw [reader_sc (inv_reachable h) i r hi s mf v hs hm hv k]
+  exact lookup_correct h i r hi s mf v hs hm hv k
+
+/-- reader 0 of `exState2`: position 2, buffers (2, frozen 0), tables pinned after the first flush -/
+example : (exState2.readers[0]?.map fun r => (r.seq?, r.mems?)) = some (some 2, some (2, some 0))
+    ∧ ∀ v, (exState2.readers[0]?.bind (·.ver?)) = some v →
+        scView bytewise [getBuf exState2 2, getBuf exState2 0, v] [1] 2 = some [10] := by
+  refine ⟨by decide, ?_⟩
+  intro v hv
+  have : v = [ent 1 1 1 10, ent 2 2 1 20] := by
+    have h2 : (exState2.readers[0]?.bind (·.ver?)) = some [ent 1 1 1 10, ent 2 2 1 20] := by decide
+    rw [h2] at hv; exact (Option.some.inj hv).symm
+  subst this; decide
+
 /-! ### the two orderings that matter: negative results -/
 
 /-- the result some reader of `σ` returned differs from the history's value at its position -/
@@ -377,6 +399,20 @@ theorem trOverFrozen_breaks : ∃ σ, Reachable { trOverFrozen := true } bytewis
   have s3 : Steps cfg bytewise σ2 σ3 := steps_of_run trOverFrozenTrace2 σ2 _ (by decide) (by decide)
   refine ⟨σ3, Steps.trans (Steps.tail _ s1 s2) s3, ?_⟩
   refine ⟨_, List.mem_cons_self, ([1], some [10]), by decide, 2, by decide, by decide⟩
+
+/-- In that variant the damage is visible even before any compaction: right after the commit has returned,
+a `Get` consults the still pending frozen buffer first and returns the deleted value (this is what
+goleveldb does under that schedule — reproduced on the Go side). -/
+def trOverFrozenTrace0 : List Action :=
+  [.writeInsert [ent 1 1 1 10], .publish, .rotate, .trOpen, .trPut (ent 1 2 0 0), .trInstall, .trPublish,
+   .rNew, .rSeq 0, .rMems 0, .rVer 0]
+
+theorem trOverFrozen_stale_read : ∃ σ, Reachable { trOverFrozen := true } bytewise σ ∧
+    ∃ r ∈ σ.readers, ∃ s mf v, r.seq? = some s ∧ r.mems? = some mf ∧ r.ver? = some v ∧
+      scView bytewise [getBuf σ mf.1, optBuf σ mf.2, v] [1] s = some [10] ∧ view bytewise σ.hist [1] s = none := by
+  refine ⟨(run { trOverFrozen := true } bytewise init trOverFrozenTrace0).getD init,
+    steps_of_run trOverFrozenTrace0 init _ (by decide) (by decide), ?_⟩
+  refine ⟨_, List.mem_cons_self, 2, (1, some 0), [ent 1 2 0 0], by decide, by decide, by decide, by decide, by decide⟩
 
 /-- the real system refuses to open the transaction there -/
 example : run Cfg.real bytewise init trOverFrozenTrace1 = none := by decide
@@ -528,8 +564,9 @@ example : ∀ k, view bytewise exState2.hist k 2 = view bytewise exState.hist k 
 def theorems : List String :=
   ["GoLevel.C05.pub_monotone", "GoLevel.C05.published_in_hist", "GoLevel.C05.cover_invariant",
    "GoLevel.C05.floor_monotone", "GoLevel.C05.reader_seq_is_pub", "GoLevel.C05.reader_triple_fixed",
-   "GoLevel.C05.read_linearizable", "GoLevel.C05.lookup_correct", "GoLevel.C05.no_wrong_read",
-   "GoLevel.C05.dropEarly_breaks", "GoLevel.C05.verFirst_breaks", "GoLevel.C05.trOverFrozen_breaks",
+   "GoLevel.C05.read_linearizable", "GoLevel.C05.lookup_correct", "GoLevel.C05.lookup_order_irrelevant",
+   "GoLevel.C05.no_wrong_read", "GoLevel.C05.dropEarly_breaks", "GoLevel.C05.verFirst_breaks",
+   "GoLevel.C05.trOverFrozen_breaks", "GoLevel.C05.trOverFrozen_stale_read",
    "GoLevel.C05.publication_is_one_step", "GoLevel.C05.batch_atomic", "GoLevel.C05.real_time_order",
    "GoLevel.C05.writes_ordered", "GoLevel.C05.snapshot_stable", "GoLevel.C05.iterator_stable"]
 
